@@ -606,9 +606,7 @@ func (p *Prog) altForms(name string) []string {
 		if i := strings.LastIndex(kr, "."); i >= 0 {
 			kb = kr[i+1:]
 		}
-		// the same unexported name in the other form (method <-> function), or as a method of another receiver type
-		// of the package (a group of methods moved to a helper type)
-		if kb == base && (strings.Contains(kr, ".") != strings.Contains(rest, ".") || kr != rest) {
+		if kb == base && (strings.Contains(kr, ".") != strings.Contains(rest, ".")) {
 			out = append(out, key)
 		}
 	}
@@ -643,6 +641,11 @@ func (p *Prog) Func(name string) (fn *ssa.Function) {
 	}
 	if r := p.renamedTo(name); r != "" {
 		return p.funcExact(r)
+	}
+	if m := p.movedMethod(name); m != "" {
+		if fn = p.funcExact(m); fn != nil {
+			return fn
+		}
 	}
 	for _, h := range AnchorHosts[name] {
 		if fn = p.funcExact(h); fn != nil {
@@ -851,6 +854,11 @@ func (p *Prog) Decl(name string) *FuncDecl {
 				return d
 			}
 		}
+		if m := p.movedMethod(name); m != "" {
+			if d := p.decls[m]; d != nil {
+				return d
+			}
+		}
 	}
 	for _, h := range AnchorHosts[name] {
 		if d := p.decls[h]; d != nil {
@@ -858,6 +866,31 @@ func (p *Prog) Decl(name string) *FuncDecl {
 		}
 	}
 	return nil
+}
+
+// movedMethod: the same unexported method name on another receiver type of the package, when it is the only one (a
+// group of methods moved to a helper type) and that method did not exist on the tree the rules were written against.
+func (p *Prog) movedMethod(name string) string {
+	pkgName, rest := splitName(name)
+	i := strings.LastIndex(rest, ".")
+	if i < 0 || ast.IsExported(rest[i+1:]) {
+		return ""
+	}
+	base := rest[i+1:]
+	var found []string
+	for key := range p.AllDecls() {
+		kp, kr := splitName(key)
+		if kp != pkgName || key == name || kr == rest {
+			continue
+		}
+		if j := strings.LastIndex(kr, "."); j >= 0 && kr[j+1:] == base && AnchorSigs[key] == "" {
+			found = append(found, key)
+		}
+	}
+	if len(found) == 1 {
+		return found[0]
+	}
+	return ""
 }
 
 // AllDecls returns every function declaration of the module keyed by name.
